@@ -173,7 +173,7 @@ def run(R, tier):
                 break
         # 3. plain numbers on either side = the scalar multivector
         x = oc.make_mv(alg, kb, [float(v) for v in oc.random_values(rng, len(kb), zero_p=0)])
-        for num in (3, 2.5, np.float64(4.0), np.int64(2)):
+        for num in (3, 2.5, np.float64(4.0), np.int64(2), 0, 1, -1, 0.0):
             sc = MultiVector.fromkeysvalues(alg, (0,), [num])
             for sym, opname in INFIX.items():
                 for side in ('left', 'right'):
